@@ -136,7 +136,10 @@ EXTRA = ["a = R'\\x'", "a = bR'\\x\\u'", "a = '\\x41\\u0041\\N{DASH}'", "a = rb'
          'try: pass\nexcept a: pass\nexcept: pass\nelse: pass', 'while a:\n    if b: continue\n    break\nelse: pass',
          'with a, b as c: pass', 'a = not b', 'a = (yield)', 'a = await b', 'a = [b async for b in c]', 'return', 'a = -b ** -c',
          'a, b = c', '(a, b) = c', '[a, b] = c', 'a.b = c', 'a[b] = c', 'for a.b in c: pass', 'for a[0] in c: pass',
-         'x = lambda: (yield)', 'x = lambda: [(yield a) for a in b] if 0 else 1', 'with a as b.c: pass', 'with a as b[0]: pass', 'a = b.c(*d, **e)', 'global_ = 1', 'a = `b`' if False else 'a = (b)']
+         'x = lambda: (yield)', 'x = lambda: [(yield a) for a in b] if 0 else 1', 'with a as b.c: pass', 'with a as b[0]: pass', 'a = b.c(*d, **e)', 'global_ = 1', 'a = `b`' if False else 'a = (b)',
+         # escapes in the literal parts of an f-string (outside the expression part of a replacement field)
+         "a = f'{a:\\n}'", "a = f'{a:\\t<8}'", "a = f'{a!r:\\x41>{b}}'", "a = f'\\n{a}\\t'", "a = rf'\\d{a}'",
+         "a = f'{a}\\N{EN DASH}'", 'a = f"""{a:\\\n}"""']
 SCOPE_SENSITIVE = ['global a', 'nonlocal a', 'return a', 'yield', 'await a', 'a = 1']
 HEADERS = [None, 'def f(a):', 'async def f():', 'class C:', 'def f():\n    def g():', 'for q in r:']
 
